@@ -12,7 +12,7 @@ theorem stepF (s s' : St) (l : Lbl) (h : InvF s) (hB : InvB s) (hC : InvC s) (hD
   obtain ⟨h1, h2, h3⟩ := h
   have hbe := hB.busyEmpty
   have hsp := hD.seenPlaced
-  obtain ⟨c1, c2, c3, c4, c5, c6, c7, c8⟩ := hC
+  obtain ⟨c1, c2, c3, c4, c5, c6, c7, c8, c9, c10⟩ := hC
   unfold placed at hsp
   unfold P2 P3 at *
   cases l <;> simp only [step] at hs
@@ -119,7 +119,7 @@ theorem stepF (s s' : St) (l : Lbl) (h : InvF s) (hB : InvB s) (hC : InvC s) (hD
 
 /-! ### Part L: the Shutdown calls that did not win `stopOnce` -/
 structure InvL (s : St) : Prop where
-  retDone : ∀ c ∈ s.sds, c.ret = true → s.sdRetOk = true
+  retDone : ∀ c ∈ s.sds, c.ret = true → (s.sdRetOk = true ∨ s.sdRetErr = true)
   preSeen : ∀ c ∈ s.sds, ∀ id ∈ c.pre, id ∈ s.seen
   called : s.sds ≠ [] → s.sd ≠ .none
   uniq : (s.sds.map (·.cid)).Nodup
@@ -195,7 +195,7 @@ structure Inv (s : St) : Prop where
   l : InvL s
 
 theorem inv_init (cap maxB : Nat) (blocking : Bool) (hpos : 1 ≤ maxB) : Inv (init cap maxB blocking) := by
-  refine ⟨⟨?_, ?_⟩, ⟨hpos, ?_, ?_, ?_, ?_⟩, ⟨?_, ?_, ?_, ?_, ?_, ?_, ?_, ?_⟩, ⟨?_, ?_⟩, ⟨?_, ?_, ?_, ?_⟩, ⟨?_, ?_, ?_⟩, ⟨?_, ?_, ?_, ?_⟩⟩ <;>
+  refine ⟨⟨?_, ?_⟩, ⟨hpos, ?_, ?_, ?_, ?_⟩, ⟨?_, ?_, ?_, ?_, ?_, ?_, ?_, ?_, ?_, ?_⟩, ⟨?_, ?_⟩, ⟨?_, ?_, ?_, ?_⟩, ⟨?_, ?_, ?_⟩, ⟨?_, ?_, ?_, ?_⟩⟩ <;>
     simp [init, allIds, spansOf, handL] <;> omega
 
 theorem inv_step (s s' : St) (l : Lbl) (h : Inv s) (hs : step s l = some s') : Inv s' :=
